@@ -151,6 +151,9 @@ func execOp(op Op, e *env) (out Outcome) {
 		if err == nil {
 			v, err = jp.Search(e.docs[op.Doc])
 		}
+	case "mustcompile_search":
+		jp := jmespath.MustCompile(e.exprs[op.Expr]) // panics on a syntax error: outcome "panic"
+		v, err = jp.Search(e.docs[op.Doc])
 	case "parse":
 		var ast jmespath.ASTNode
 		ast, err = jmespath.NewParser().Parse(e.exprs[op.Expr])
